@@ -215,4 +215,31 @@ def lexDouble (s : String) : Option D :=
           let n : Int := if neg then -(mant : Int) else (mant : Int)
           some (if sh ≥ 0 then rnd (n * 10 ^ sh.toNat) 1 else rnd n (10 ^ (-sh).toNat))
 
+
+/-! ## collations (F&O §5.3): the key of a string, shared by model and specification
+
+`codepoint`: code points; `asciiCI`: http://www.w3.org/2005/xpath-functions/collation/html-ascii-case-insensitive,
+"A–Z are mapped to a–z, then code points" (`s.translate({65..90 ↦ +32})` in collations.py).  Compared with
+the engine's `CollationManager` on every run (kernel probe). -/
+
+inductive Coll where
+  | codepoint | asciiCI
+  deriving DecidableEq, Repr
+
+def asciiLower (n : Nat) : Nat := if 65 ≤ n ∧ n ≤ 90 then n + 32 else n
+
+def collKey (c : Coll) (s : String) : List Nat :=
+  match c with
+  | .codepoint => s.toList.map Char.toNat
+  | .asciiCI => s.toList.map fun ch => asciiLower ch.toNat
+
+/-- equality of two strings under a collation -/
+def collEq (c : Coll) (s t : String) : Bool :=
+  match c with
+  | .codepoint => s == t
+  | .asciiCI => collKey .asciiCI s == collKey .asciiCI t
+
+/-- `s` sorts before `t` under a collation -/
+def collLt (c : Coll) (s t : String) : Bool := decide (collKey c s < collKey c t)
+
 end EPV.Seq
